@@ -53,7 +53,7 @@ CHECKS = {
         'Coq proof over a Gallina model of TermId + per-run translation of the TermId methods from src/hpotk/model/_term_id.py into Gallina proved equal to the model + per-run vm_compute correspondence with the implementation',
         'Machine-checked theorems (all strings, all term ids, no bound): parse succeeds iff a delimiter is present and splits at the '
         'first colon else first underscore; value re-parses to an equal id; == is equality of (prefix,id); equal ids hash equally '
-        'across both classes; < is a strict total lexicographic order; sort+dedupe is canonical and the bisect loop finds exactly '
+        'across both classes; < is a strict total lexicographic order; parsing does not normalise (equal ids = same text up to the delimiter character); sort+dedupe is canonical and the bisect loop finds exactly '
         'the present ids. The model is tied to the code by differential execution on every run (exhaustive small alphabet + random unicode + HPO-shaped ids against their look-alikes: zero padding, sign, blanks, digit separators, full-width digits, prefix case).',
         'Trusted: Coq kernel + vm_compute; hash((prefix,id)) abstracted as a function of the two strings; numpy.unique/bisect modelled; '
         'harness rendering. idx >= 0 for directly constructed ids; no lone surrogates.',
@@ -99,7 +99,7 @@ CHECKS = {
         'after an isfile that found the location absent; a complete copy is a cache hit (no fetch, nothing written, same ontology); whatever a load returns '
         'was parsed from exactly the served bytes; from every reachable world a fresh healthy load run alone succeeds and leaves a complete copy; the latest '
         'release is the greatest tag, no tag -> ValueError; clear(type) removes exactly that type, clear() everything; the file NAMES (<ID>/<id>.<release>.json, + .<random>.tmp) '
-        'as strings: classification is a left inverse of both naming functions, so cache locations of different (type, release) never coincide and a temporary file is never a cache location. Correspondence: all histories of '
+        'as strings: classification is a left inverse of both naming functions, so cache locations of different (type, release) never coincide and a temporary file is never a cache location; a tag re-published with other content: once the store (or that type) was cleared with no load in flight the invariant holds for the NEW remote, the next load fetches, stores and returns exactly the new bytes. Correspondence: all histories of '
         'length <= 2 over 13 operations x {absolute, relative} store + random ones, a kill before every boundary, all 2-loader interleavings with <= 2 '
         'preemptions (thorough: all 12870) with the store snapshot after every boundary, faulty / 3-loader races, repeated loads of one release with alternating loader options each compared with the direct load, a tag re-published with other content after clear (evaluated directly) - the RAW directory listing is classified inside Coq and compared with the model at every '
         'checkpoint, resolve_store_path is compared with final_name. PARTIAL: power-loss durability and non-POSIX rename are outside the model.',
@@ -158,7 +158,7 @@ CHECKS = {
         'Machine-checked theorems, for any successor function and pop policy (so for the stack iterator of the indexed graph and the deque iterator of the '
         'matrix graph, both instantiated): draining a lazily evaluated traversal iterator yields exactly the eager traversal list that C01/C03 characterise; a '
         'partially consumed iterator has yielded a prefix of it; for EVERY history of opening and advancing any number of iterators each iterator yields '
-        'exactly what it yields alone, and one opened later is unaffected by what happened before. In the model isolation is structural, so the verdict rests '
+        'exactly what it yields alone, and one opened later is unaffected by what happened before; the parent / child iterators are the successor-free instance (drained = the row; each yields a prefix of its own row in any history). In the model isolation is structural, so the verdict rests '
         'on the property\'s own observable on the real code: results after query histories (incl. abandoned half-consumed iterators) equal fresh results; all '
         'interleavings (<= 60 per configuration, thorough <= 1680) of 2-3 open iterators yield the solo sequences, and their yields match the model in Coq '
         '(no repeats, right multiset); 8 reader threads; documents / HPOA files A,B,A through the shared default factories; every ontology-level query (lookups of primary / alternate / obsolete / absent ids in three argument forms, membership, names, len, listings, version) on three fresh loads in fixed, reverse and shuffled order with open listing iterators; half-consumed traversals resumed after another query. PARTIAL: preemption inside a '
